@@ -210,7 +210,7 @@ HISTORIES = [
 BLOBS = [(361, 9, 4, 0), (361, 3, 7, 0), (361, 9, 5, 0), (362, 1, 1, 0), (361, 9, 4, 1)]  # (l0, l1, l2, sid index)
 
 
-@harness(P, params=lambda tier: [dict(h=i, flavour=f) for i in range(len(HISTORIES)) for f in (("sync",) if tier == "quick" else ("sync", "async"))], max_steps=4000000,
+@harness(P, per_job=True, params=lambda tier: [dict(h=i, flavour=f) for i in range(len(HISTORIES)) for f in (("sync",) if tier == "quick" else ("sync", "async"))], max_steps=4000000,
          bounds="6 listed operation histories (up to 4 calls) over {load root key, unprotect blobs at 5 listed positions on 2 L0s / 2 SIDs, protect now} through the public API against "
          "a conforming-DC stub that counts GetKey calls; plaintexts symbolic", outside="other histories (the inductive steps above cover histories of any length at cache level)",
          must_reach=("same plaintext as with a fresh cache", "domain controller contacted exactly when no covering material was cached"))
